@@ -312,7 +312,13 @@ SPD(g_) ==
   \/ g_.cls = "spd"
   \/ g_.cls = "symrefl" /\ \A i \in 1..g_.n : g_.q[i] > 0
   \/ g_.cls \in {"tridiag", "triang", "dense", "bidiag", "hess"} /\ Symmetric(g_) /\ DiagDominantPos(Num(g_))
-FullColRank(g_) == LET A == Num(g_) IN Det(MMul(Tr(A), A)) # 0
+FullColRank(g_) ==
+  CASE g_.cls = "spd" -> TRUE
+    [] g_.cls = "symrefl" -> \A i \in 1..g_.n : g_.q[i] # 0
+    [] g_.cls = "svdrefl" -> \A i \in 1..g_.n : g_.p[i] # 0
+    [] g_.cls = "compan" -> PolyOf(g_)[1] # 0
+    [] g_.cls = "triang" -> \A i \in 1..g_.n : g_.p[i] # 0
+    [] OTHER -> LET A == Num(g_) IN Det(MMul(Tr(A), A)) # 0              \* Gram determinant (small entries)
 (* non-symmetric with a repeated eigenvalue: possibly defective, eigenvalues only accurate to a root of the unit roundoff *)
 Loose(g_) == EigKnown(g_) /\ ~Symmetric(g_) /\ HasRepeat(EigReal(g_) \o EigCRe(g_))
 
